@@ -35,7 +35,7 @@ struct MB {
   struct bufferevent *bev = nullptr; int idx = 0; int type = 0;
   short enabled = 0; int64_t t[2] = {0, 0}; size_t wm_high = 0;
   Dir d[2];
-  int rd_action = 0;      // read callback: 0 leave, 1 drain all, 2 drain half
+  int rd_action = 0;      // read callback: 0 none installed, 1 drain all, 2 drain half
   int reenable = 0;       // event callback re-enables the timed-out direction
   bool deferred = false;
   bool ever_set[2] = {false, false};
@@ -180,7 +180,7 @@ void setup_bev(MB &m, struct bufferevent *bev, int type, int idx, bool deferred,
   m = MB(); m.bev = bev; m.type = type; m.idx = idx; m.deferred = deferred;
   m.rd_action = s.below(3); m.reenable = s.below(2);
   m.enabled = bufferevent_get_enabled(bev);
-  bufferevent_setcb(bev, read_cb, write_cb, event_cb, &m);
+  bufferevent_setcb(bev, m.rd_action ? read_cb : nullptr, write_cb, event_cb, &m);   // no read callback when nothing is consumed: a callback that leaves input at the high-watermark is re-triggered forever
   evbuffer_add_cb(bufferevent_get_input(bev), obs_in, &m);
   evbuffer_add_cb(bufferevent_get_output(bev), obs_out, &m);
   TR("  %s%d deferred=%d rd_action=%d reenable=%d enabled=0x%x", TN[type], idx, deferred, m.rd_action, m.reenable, m.enabled);
@@ -263,7 +263,8 @@ extern "C" int LLVMFuzzerTestOneInput(const uint8_t *data, size_t size) {
         m.wm_high = high; sync(m);
         restart(m, 0, false);   // code-derived corner: (re-)evaluating the read watermark re-enables an unsuspended direction
         break; }
-      case 5: { size_t n = WRS[s.below(6)];
+      case 5: { size_t n = WRS[s.below(m.type == T_PAIR ? 5 : 6)];
+        if (outlen(m) + n > (m.type == T_PAIR ? 9000u : 80000u)) break;
         int r = bufferevent_write(m.bev, BLOB, n); TR("write %s%d %zu -> %d (out=%zu)", TN[m.type], m.idx, n, r, outlen(m));
         CHECK(r == 0, "C20/write-failed", "r=%d", r); sync(m); break; }
       case 6: { size_t n = inlen(m); if (s.flag()) n = (n + 1) / 2;
